@@ -94,3 +94,4 @@
 (declare-fun typeOfExpr (Iface) Iface)
 ; contains a call of Yield/YieldFrom outside nested function literals (abstract; decided by rewriter.containsYield)
 (declare-fun HasYield (Iface) Bool)
+(assert (not (HasYield nilIface)))
